@@ -332,3 +332,179 @@ func c15Main(c *hx.Ctx, bin string) {
 		}
 	})
 }
+
+// gxzStaleTemp: a temporary file left by an earlier, killed run (or planted by someone else)
+// sits where gxz wants to create its own: a long regular file with wide permissions, or a
+// symbolic link to an unrelated file. Whatever gxz decides (today it refuses, also with -f),
+// the unrelated file must stay untouched, a run that reports success must have produced the
+// exact output with no more permission bits than the input, and a failing run must leave the
+// input alone and no file under the target name. Used by C10 and C15.
+func gxzStaleTemp(c *hx.Ctx, bin string) {
+	plain := MakeData("text", 21000, c.Seed+4242)
+	type tc struct {
+		format     string
+		decompress bool
+		force      bool
+		link       bool
+	}
+	var cases []tc
+	for _, f := range []string{"xz", "lzma"} {
+		for _, d := range []bool{false, true} {
+			for _, force := range []bool{false, true} {
+				for _, link := range []bool{false, true} {
+					cases = append(cases, tc{f, d, force, link})
+				}
+			}
+		}
+	}
+	parallel(len(cases), func(i int) {
+		k := cases[i]
+		dir, err := os.MkdirTemp(c.Scratch, "stale")
+		if err != nil {
+			c.Inconclusive("mkdir: %v", err)
+			return
+		}
+		defer os.RemoveAll(dir)
+		in, tgt := "notes.txt", "notes.txt."+k.format
+		input := plain
+		var args []string
+		if k.format == "lzma" {
+			args = append(args, "-F", "lzma")
+		}
+		tmp := tgt + ".compress"
+		if k.decompress {
+			in, tgt = tgt, in
+			input = gxzEncode(k.format, plain)
+			args = append(args, "-d")
+			tmp = tgt + ".decompress"
+		}
+		if k.force {
+			args = append(args, "-f")
+		}
+		os.WriteFile(filepath.Join(dir, in), input, 0o600)
+		os.Chmod(filepath.Join(dir, in), 0o600)
+		bystander := []byte("an unrelated file that gxz has no business with\n")
+		os.WriteFile(filepath.Join(dir, "bystander"), bystander, 0o644)
+		if k.link {
+			os.Symlink("bystander", filepath.Join(dir, tmp))
+		} else {
+			os.WriteFile(filepath.Join(dir, tmp), bytes.Repeat([]byte("stale temporary data "), 5000), 0o666)
+			os.Chmod(filepath.Join(dir, tmp), 0o666)
+		}
+		run := runCli(bin, dir, append(args, in))
+		c.Count(1, 1)
+		sig := func(kind string) map[string]string {
+			return map[string]string{"part": "stale-temp", "kind": kind, "format": k.format, "decompress": fmt.Sprint(k.decompress), "force": fmt.Sprint(k.force), "symlink": fmt.Sprint(k.link)}
+		}
+		after := snapshot(dir)
+		replay := map[string]any{"argv": run.argv, "case": fmt.Sprintf("%+v", k), "exit": run.exit, "stderr": string(run.stderr)}
+		if after["bystander"] != "F:"+string(bystander) {
+			c.Violation(sig("unrelated-file-changed"), fmt.Sprintf("gxz %q with %s present: an unrelated file was modified or removed", run.argv, tmp), replay)
+			return
+		}
+		got, has := after[tgt]
+		if run.exit == 0 {
+			good := false
+			if has && strings.HasPrefix(got, "F:") {
+				if k.decompress {
+					good = got[2:] == string(plain)
+				} else {
+					dec, ok := decodeAny([]byte(got[2:]), k.format)
+					good = ok && bytes.Equal(dec, plain)
+				}
+			}
+			if !good {
+				c.Violation(sig("exit-zero-wrong-output"), fmt.Sprintf("gxz %q with a stale %s: exit 0 but %s does not hold exactly the expected content", run.argv, tmp, tgt), replay)
+				return
+			}
+			if fi, err := os.Stat(filepath.Join(dir, tgt)); err == nil && fi.Mode().Perm()&^0o600 != 0 {
+				c.Violation(sig("permission-added"), fmt.Sprintf("gxz %q with a stale %s: %s has mode %o, the input had 600", run.argv, tmp, tgt, fi.Mode().Perm()), replay)
+			}
+			return
+		}
+		if after[in] != "F:"+string(input) {
+			c.Violation(sig("failed-run-touched-input"), fmt.Sprintf("gxz %q failed (exit %d) but the input is gone or changed", run.argv, run.exit), replay)
+		}
+		if has {
+			c.Violation(sig("failed-run-left-target"), fmt.Sprintf("gxz %q failed (exit %d) but %s exists", run.argv, run.exit, tgt), replay)
+		}
+	})
+}
+
+// gxzFullStdout: standard output that cannot be written (/dev/full): every invocation that
+// has to write there must end with a non-zero status, however little it has to write (the
+// only write may be the final flush), and must not touch its inputs.
+func gxzFullStdout(c *hx.Ctx, bin string) {
+	full, err := os.OpenFile("/dev/full", os.O_WRONLY, 0)
+	if err != nil {
+		c.Logf("/dev/full not available: %v (family skipped)", err)
+		return
+	}
+	full.Close()
+	small := MakeData("text", 600, c.Seed+99)
+	big := MakeData("random", 300000, c.Seed+98)
+	type tc struct {
+		name  string
+		args  []string
+		files map[string][]byte
+		stdin []byte
+	}
+	var cases []tc
+	for _, f := range []string{"xz", "lzma"} {
+		fa := []string{}
+		if f == "lzma" {
+			fa = []string{"-F", "lzma"}
+		}
+		cases = append(cases,
+			tc{"compress -c small " + f, append(append([]string{}, fa...), "-c", "a.txt"), map[string][]byte{"a.txt": small}, nil},
+			tc{"compress -c two small " + f, append(append([]string{}, fa...), "-c", "a.txt", "b.txt"), map[string][]byte{"a.txt": small, "b.txt": small[:100]}, nil},
+			tc{"compress -c big " + f, append(append([]string{}, fa...), "-c", "a.bin"), map[string][]byte{"a.bin": big}, nil},
+			tc{"decompress -c small " + f, append(append([]string{}, fa...), "-dc", "a." + f), map[string][]byte{"a." + f: gxzEncode(f, small)}, nil},
+			tc{"filter compress " + f, append([]string{}, fa...), nil, small},
+			tc{"filter decompress " + f, append(append([]string{}, fa...), "-d"), nil, gxzEncode(f, small)},
+		)
+	}
+	parallel(len(cases), func(i int) {
+		k := cases[i]
+		dir, err := os.MkdirTemp(c.Scratch, "full")
+		if err != nil {
+			c.Inconclusive("mkdir: %v", err)
+			return
+		}
+		defer os.RemoveAll(dir)
+		for n, b := range k.files {
+			os.WriteFile(filepath.Join(dir, n), b, 0o644)
+		}
+		out, err := os.OpenFile("/dev/full", os.O_WRONLY, 0)
+		if err != nil {
+			return
+		}
+		defer out.Close()
+		cmd := exec.Command(bin, k.args...)
+		cmd.Dir = dir
+		cmd.Stdout = out
+		var se bytes.Buffer
+		cmd.Stderr = &se
+		cmd.Stdin = bytes.NewReader(k.stdin)
+		err = cmd.Run()
+		exit := 0
+		if ee, ok := err.(*exec.ExitError); ok {
+			exit = ee.ExitCode()
+		} else if err != nil {
+			exit = -1
+		}
+		c.Count(1, 1)
+		sig := map[string]string{"part": "full-stdout", "kind": "write-failure-exit-zero", "case": k.name}
+		replay := map[string]any{"argv": k.args, "case": k.name, "exit": exit, "stderr": se.String()}
+		if exit == 0 {
+			c.Violation(sig, fmt.Sprintf("gxz %q with standard output on a full device: exit 0 although nothing could be written", k.args), replay)
+		}
+		after := snapshot(dir)
+		for n, b := range k.files {
+			if after[n] != "F:"+string(b) {
+				sig["kind"] = "input-touched"
+				c.Violation(sig, fmt.Sprintf("gxz %q with standard output on a full device: input %s is gone or changed", k.args, n), replay)
+			}
+		}
+	})
+}
